@@ -60,10 +60,10 @@ func (ex *Exec) splitGoal(g *Term, hyps []*Term, out *[]subgoal) {
 // engineAxioms: axioms for the engine-level uninterpreted functions.
 func (ex *Exec) engineAxioms(used map[string]bool) string {
 	var sb strings.Builder
-	if used["concat"] {
-		sb.WriteString(`(assert (forall ((a Str) (b Str)) (! (and (= (soff (concat a b)) 0) (= (slen (concat a b)) (+ (slen a) (slen b)))) :pattern ((concat a b)))))
-(assert (forall ((a Str) (b Str) (i Int)) (! (=> (and (<= 0 i) (< i (slen a))) (= (select (sarr (concat a b)) i) (select (sarr a) (+ (soff a) i)))) :pattern ((select (sarr (concat a b)) i)))))
-(assert (forall ((a Str) (b Str) (i Int)) (! (=> (and (<= (slen a) i) (< i (+ (slen a) (slen b)))) (= (select (sarr (concat a b)) i) (select (sarr b) (+ (soff b) (- i (slen a)))))) :pattern ((select (sarr (concat a b)) i)))))
+	if used["sconcat"] {
+		sb.WriteString(`(assert (forall ((a Str) (b Str)) (! (and (= (soff (sconcat a b)) 0) (= (slen (sconcat a b)) (+ (slen a) (slen b)))) :pattern ((sconcat a b)))))
+(assert (forall ((a Str) (b Str) (i Int)) (! (=> (and (<= 0 i) (< i (slen a))) (= (select (sarr (sconcat a b)) i) (select (sarr a) (+ (soff a) i)))) :pattern ((select (sarr (sconcat a b)) i)))))
+(assert (forall ((a Str) (b Str) (i Int)) (! (=> (and (<= (slen a) i) (< i (+ (slen a) (slen b)))) (= (select (sarr (sconcat a b)) i) (select (sarr b) (+ (soff b) (- i (slen a)))))) :pattern ((select (sarr (sconcat a b)) i)))))
 `)
 	}
 	if used["chr"] {
@@ -124,6 +124,7 @@ func (ex *Exec) collectAsserts(o *Obligation, sg subgoal, exclude string) (asser
 	asserts = append(asserts, ex.axioms[:o.NAxioms]...)
 	// literals created later (by goal evaluation) still need their byte axioms
 	asserts = append(asserts, ex.litAxiomsAfter(o.NAxioms)...)
+	asserts = append(asserts, ex.globalFacts...)
 	asserts = append(asserts, o.Path)
 	asserts = append(asserts, sg.hyps...)
 	neg = Not(sg.goal)
@@ -187,12 +188,28 @@ func (ex *Exec) buildQuery(o *Obligation, sg subgoal, exclude string, values []*
 	sb.WriteString(Preamble)
 	ex.D.EmitFor(&sb, append(all, values...))
 	eng := map[string]bool{}
-	for _, n := range []string{"concat", "chr", "card", "subobj", "sid"} {
+	for _, n := range []string{"sconcat", "chr", "card", "subobj", "sid"} {
 		if used[n] {
 			eng[n] = true
 		}
 	}
 	sb.WriteString(ex.engineAxioms(eng))
+	focus := append(append([]*Term{}, sg.hyps...), neg)
+	insts := preInstantiate(append(append([]*Term{}, asserts...), extra...), focus)
+	var instDecl strings.Builder
+	ex.D.EmitFor(&instDecl, insts)
+	// only declarations not emitted yet
+	have := sb.String()
+	for _, l := range strings.Split(instDecl.String(), "\n") {
+		if l != "" && !strings.Contains(have, l+"\n") {
+			sb.WriteString(l + "\n")
+		}
+	}
+	for _, a := range insts {
+		sb.WriteString("(assert ")
+		sb.WriteString(a.String())
+		sb.WriteString(")\n")
+	}
 	for _, a := range asserts {
 		sb.WriteString("(assert ")
 		sb.WriteString(a.String())
